@@ -329,6 +329,9 @@ structure Sem (σ δ : Type) where
   persist : Int → σ → δ → δ × Option Err
   /-- what `restart` does to the variables and task states (C09) -/
   reinit : RestartMode → σ → σ
+  /-- what a debugger write of value `v` to target `k` (a global, a retained or instance variable,
+  an l-value) does to the storage; failures are discarded by the callers (`let _ = …`) -/
+  poke : Nat → Int → σ → σ
 
 /-- `Runtime`, reduced to what C08 is about. -/
 structure RState (σ δ : Type) where
@@ -345,6 +348,15 @@ structure RState (σ δ : Type) where
   /-- `DebugControl`'s forced I/O values (`force_io` / `release_io`), applied by
   `apply_forced_values` in both `read_cycle_inputs` and `write_cycle_outputs` -/
   forced : List (Addr × Value)
+  /-- `DebugControl`'s pending variable writes (`enqueue_global_write` / `enqueue_retain_write` /
+  `enqueue_instance_write` / `enqueue_local_write`: one entry per target, a later write to the same
+  target replaces the value in place) and pending l-value writes (`enqueue_lvalue_write`: appended);
+  both are drained by `execute_cycle` AFTER the faulted check -/
+  varQ : List (Nat × Int)
+  lvalQ : List (Nat × Int)
+  /-- `DebugControl`'s forced variables (`force_global` / `release_global` …), applied by
+  `apply_forced_values` after the forced I/O values -/
+  forcedVars : List (Nat × Int)
   now : Int
   cycles : Nat
 
@@ -434,12 +446,26 @@ def phaseDebug : Phase σ δ := fun s =>
   let r := applyWrites s.dbgQ s.io
   { st := { s with dbgQ := [], io := r.1 }, evs := [], err := r.2 }
 
-/-- `apply_forced_values` (I/O part): `for (address, value) in forced.io { io.write(..)?; }`.
-Runs after the debug writes in `read_cycle_inputs` and after the binding publish in
+/-- Debugger writes applied to the storage in order. -/
+def applyPokes (sem : Sem σ δ) : List (Nat × Int) → σ → σ
+  | [], st => st
+  | (k, v) :: rest, st => applyPokes sem rest (sem.poke k v st)
+
+/-- The head of `execute_cycle` after the faulted check: `debug.drain_var_writes()` then
+`debug.drain_lvalue_writes()` are applied to the storage (errors discarded); both queues are empty
+afterwards.  Cannot fail, emits no event (it precedes `CycleStart`). -/
+def phaseVarWrites (sem : Sem σ δ) : Phase σ δ := fun s =>
+  { st := { s with store := applyPokes sem (s.varQ ++ s.lvalQ) s.store, varQ := [], lvalQ := [] },
+    evs := [], err := none }
+
+/-- `apply_forced_values`: `for (address, value) in forced.io { io.write(..)?; }`, then the forced
+variables.  Runs after the debug writes in `read_cycle_inputs` and after the binding publish in
 `write_cycle_outputs`. -/
-def phaseForce : Phase σ δ := fun s =>
+def phaseForce (sem : Sem σ δ) : Phase σ δ := fun s =>
   let r := applyWrites s.forced s.io
-  { st := { s with io := r.1 }, evs := [], err := r.2 }
+  match r.2 with
+  | some e => { st := { s with io := r.1 }, evs := [], err := some e }
+  | none => { st := { s with io := r.1, store := applyPokes sem s.forcedVars s.store }, evs := [], err := none }
 
 /-- `read_cycle_inputs`, `interface.read_inputs(storage)`. -/
 def phaseLatch (sem : Sem σ δ) : Phase σ δ := fun s =>
@@ -483,8 +509,8 @@ def runPhases : List (Phase σ δ) → RState σ δ → PRes σ δ
       { st := r2.st, evs := r.evs ++ r2.evs, err := r2.err }
 
 def cyclePhases (sem : Sem σ δ) : List (Phase σ δ) :=
-  [phaseRead sem, phaseDebug, phaseForce, phaseLatch sem, phaseTasks sem, phasePublish sem, phaseForce,
-   phaseWrite sem, phasePersist sem]
+  [phaseVarWrites sem, phaseRead sem, phaseDebug, phaseForce sem, phaseLatch sem, phaseTasks sem,
+   phasePublish sem, phaseForce sem, phaseWrite sem, phasePersist sem]
 
 /-- `Runtime::execute_cycle`.  `err = some e` is `Err(e)`, `none` is `Ok(())`. -/
 def executeCycle (sem : Sem σ δ) (s : RState σ δ) : PRes σ δ :=
@@ -511,6 +537,10 @@ inductive Op
   | dbgWrite (a : Addr) (v : Value)
   | forceIo (a : Addr) (v : Value)
   | releaseIo (a : Addr)
+  | varWrite (k : Nat) (v : Int)
+  | lvalWrite (k : Nat) (v : Int)
+  | forceVar (k : Nat) (v : Int)
+  | releaseVar (k : Nat)
   | restart (m : RestartMode)
   | clearFault
 deriving Repr
@@ -525,6 +555,10 @@ def Op.resets : Op → Bool
 def forceSet (f : List (Addr × Value)) (a : Addr) (v : Value) : List (Addr × Value) :=
   if f.any (fun p => p.1 == a) then f.map (fun p => if p.1 == a then (p.1, v) else p) else f ++ [(a, v)]
 
+/-- `enqueue_var_write` / `set_forced_var`: replace the value of a target already present, else append. -/
+def targetSet (q : List (Nat × Int)) (k : Nat) (v : Int) : List (Nat × Int) :=
+  if q.any (fun p => p.1 == k) then q.map (fun p => if p.1 == k then (p.1, v) else p) else q ++ [(k, v)]
+
 def step (sem : Sem σ δ) (s : RState σ δ) : Op → PRes σ δ
   | .cycle => executeCycle sem s
   | .advance dt => { st := { s with now := s.now + dt }, evs := [], err := none }
@@ -537,6 +571,11 @@ def step (sem : Sem σ δ) (s : RState σ δ) : Op → PRes σ δ
   | .forceIo a v => { st := { s with forced := forceSet s.forced a v }, evs := [], err := none }
   | .releaseIo a =>
     { st := { s with forced := s.forced.filter (fun p => !(p.1 == a)) }, evs := [], err := none }
+  | .varWrite k v => { st := { s with varQ := targetSet s.varQ k v }, evs := [], err := none }
+  | .lvalWrite k v => { st := { s with lvalQ := s.lvalQ ++ [(k, v)] }, evs := [], err := none }
+  | .forceVar k v => { st := { s with forcedVars := targetSet s.forcedVars k v }, evs := [], err := none }
+  | .releaseVar k =>
+    { st := { s with forcedVars := s.forcedVars.filter (fun p => !(p.1 == k)) }, evs := [], err := none }
   | .restart m =>
     -- restart.rs: variables and task states re-initialised, clock and cycle counter to 0, latch
     -- cleared; a cold restart also zero-fills the three images (lengths and the hierarchical map
@@ -670,6 +709,11 @@ structure CStore where
   ns : List Nat
   vars : List Int
   sts : List C06.TState
+  /-- number of restarts that re-created the program instances (new `InstanceId`s) so far, and
+  whether the next restart will (reported by the harness: what restart does to instances is C09's
+  subject) -/
+  gen : Nat := 0
+  idsChange : Bool := true
 deriving DecidableEq, Repr
 
 structure CEnv where
@@ -789,7 +833,19 @@ def reinit (cfg : Cfg) (m : RestartMode) (st : CStore) : CStore :=
   { steps := if m = .warm ∧ cfg.retain.isSome then st.steps else 0,
     ns := cfg.progs.map (fun _ => 0),
     vars := cfg.initVars,
-    sts := cfg.tasks.map (fun _ => C06.register 0 false) }
+    sts := cfg.tasks.map (fun _ => C06.register 0 false),
+    gen := if st.idsChange then st.gen + 1 else st.gen,
+    idsChange := st.idsChange }
+
+/-- Debugger write targets of the harness: `k < 100` global variable `k`; `100 + p` the activation
+counter `n` of program `p` addressed through its instance global (`I<p>.n`, resolved when applied);
+`1000 * (g + 1) + p` the same counter addressed by the `InstanceId` the program had in generation
+`g` (a write to an instance that a restart has replaced changes nothing observable). -/
+def poke (_cfg : Cfg) (k : Nat) (v : Int) (st : CStore) : CStore :=
+  if k < 100 then { st with vars := st.vars.set k v }
+  else if k < 1000 then { st with ns := st.ns.set (k - 100) v.toNat }
+  else if k / 1000 = st.gen + 1 then { st with ns := st.ns.set (k % 1000) v.toNat }
+  else st
 
 def sem (cfg : Cfg) : Sem CStore CEnv where
   nDrivers := cfg.drivers.length
@@ -801,6 +857,7 @@ def sem (cfg : Cfg) : Sem CStore CEnv where
   publish := fun st io => publishAux st.vars cfg.bindings io
   persist := persist cfg
   reinit := reinit cfg
+  poke := poke cfg
 
 def initStore (cfg : Cfg) (t0 : Int) : CStore :=
   { steps := 0, ns := cfg.progs.map (fun _ => 0), vars := cfg.initVars,
@@ -812,8 +869,8 @@ def initEnv (cfg : Cfg) : CEnv :=
 
 def initState (cfg : Cfg) (io : Io) (t0 : Int) : RState CStore CEnv :=
   { faulted := false, lastFault := none, policy := .halt, wdAction := .safeHalt, safe := [],
-    io := io, store := initStore cfg t0, env := initEnv cfg, dbgQ := [], forced := [], now := t0,
-    cycles := 0 }
+    io := io, store := initStore cfg t0, env := initEnv cfg, dbgQ := [], forced := [], varQ := [],
+    lvalQ := [], forcedVars := [], now := t0, cycles := 0 }
 
 end Conc
 
